@@ -610,7 +610,7 @@ func (p *parser) readDirUse() (du *DirectiveUse, err error) {
 		}
 		for _, a := range dir.args.list {
 			if av := du.Args[a.N]; av == nil {
-				du.Args[a.N] = &ArgValue{Arg: a.N, Value: a.Default, line: p.line, col: p.col - len(a.N) + 1}
+				du.Args[a.N] = &ArgValue{Arg: a.N, Value: copyValue(a.Default), line: p.line, col: p.col - len(a.N) + 1}
 			}
 		}
 	}
